@@ -1413,14 +1413,24 @@ theorem commitC_core (σ : State) (α : Spec.State) (j : Nat) (h : Core σ α j)
         constraintsHold α.cat (α.commitTxn a).1.committed := by
       rw [c1.committed, h.cat]
     have hflag : D0.uniqueNotRecheckedAtCommit = false := rfl
-    rw [hflag, hch]
+    have hflag' : D0.commitChecksInsertedKeysOnly = false := rfl
+    rw [hflag, hflag', hch]
     cases h3 : constraintsHold α.cat (α.commitTxn a).1.committed with
     | false =>
-      simp only [Bool.not_false, Bool.and_self, if_true]
+      simp only [Bool.not_false, Bool.and_self, Bool.false_and, Bool.false_or, if_true]
       exact ⟨trivial, c0, pres0⟩
     | true =>
-      simp only [Bool.not_false, Bool.not_true, Bool.and_false, Bool.false_eq_true, if_false]
+      simp only [Bool.not_false, Bool.not_true, Bool.and_false, Bool.false_and, Bool.false_or, Bool.false_eq_true,
+        if_false]
       exact ⟨trivial, c1, pres⟩
+
+/-- `keyTaken` looks at the catalog, the rows, and the commit-log entries since the transaction began -/
+theorem keyTaken_congr {σ σ' : State} {tid : Nat} {t t' : Txn} (hc : σ'.cat = σ.cat) (hr : σ'.rows = σ.rows)
+    (ht : σ.txns[tid]? = some t) (ht' : σ'.txns[tid]? = some t')
+    (hl : σ'.clog.drop t'.startTs = σ.clog.drop t.startTs) : σ'.keyTaken tid = σ.keyTaken tid := by
+  unfold State.keyTaken
+  rw [ht, ht', hc, hr]
+  simp only [hl]
 
 /-! #### statements -/
 
